@@ -75,7 +75,8 @@ def content(rng, kind, n, bits):
 def split(rng, n):
     out, left = [], n
     while left > 0:
-        k = min(left, rng.choice([1, 2, 7, 100, 1000, 4095, 4096, 4097, left, left]))
+        # call boundaries at every fill level of the 4096-frame staging buffer (nearly empty, a quarter, just past half, three quarters, full +- 1)
+        k = min(left, rng.choice([1, 2, 7, 100, 1000, FPB // 2 + 1, 3000, 4095, 4096, 4097, left, left]))
         out.append(k)
         left -= k
     return out
@@ -163,12 +164,13 @@ def make_jobs(ctx, njobs):
         bits, ch = combos[k % len(combos)]
         n = LENGTHS[k % len(LENGTHS)] if rng.random() < 0.8 else rng.randrange(0, 9000)
         directed = None
-        if k < 4:
+        if k < 5:
             # directed: whole packets whose BER bytes fill the pakt chunk exactly (no padding, so the table has no extra zero entry and
             # frames = entries * 4096): 2 x 2 bytes, 4 x 1 byte (all-zero packets are a few bytes), 4 x 3 bytes
             bits, ch, n, directed = [(16, 1, 2 * FPB, "quiet"), (24, 1, 4 * FPB, "zero"), (16, 2, 4 * FPB, "noise"),
-                                      (32, 2, FPB - 1, "noise")][k]       # an uncompressed packet of 32768 bytes: BER 82 80 00, the entry ends in a zero byte
-        if n * ch > 34000:
+                                      (32, 2, FPB - 1, "noise"),       # an uncompressed packet of 32768 bytes: BER 82 80 00, the entry ends in a zero byte
+                                      (16, 1, 13 * FPB + 5, "zero")][k]   # 14 one-byte entries: more than pakt_size / 4, the reader's table has to grow (alac_pakt_append)
+        if n * ch > 34000 and not directed:
             n = rng.choice([0, 1, 2, 100, FPB - 1, FPB, FPB + 1]) if ch <= 8 else 100
         cont = CONTENTS[(k // 3) % len(CONTENTS)] if rng.random() < 0.7 else rng.choice(CONTENTS)
         if directed:
